@@ -26,6 +26,7 @@ ASSUMPTIONS = ["documented exception sets as listed in DOC below (taken from "
                "the property statement and the docstrings)",
                "a call running longer than 20 s wall is counted as not "
                "terminating"]
+HISTORY_DIFF = {"quick": 120, "thorough": 1000}
 SHRINK = [["items"]]
 REQUIRED_PROBES = {"quick": ["returned_object", "raised_documented"],
                    "thorough": ["returned_object", "raised_documented"]}
@@ -121,6 +122,7 @@ def execute(prog):
         "ecdh_pub_pem": KEY_DOC + (lecdh.InvalidCurveError,),
     }
     log = []
+    rlog = []
     prev = bytes(vk.to_der())
     for it in prog["items"]:
         out["ops"] += 1
@@ -246,8 +248,9 @@ def execute(prog):
             return eo
         try:
             res = world.guarded(call)
-        except DOC[e]:
+        except DOC[e] as dex:
             core.bump(out["probes"], "raised_documented")
+            rlog.append((e, type(dex).__name__))
             continue
         except world.CallTimeout:
             out["violation"] = core.violation(
@@ -273,6 +276,7 @@ def execute(prog):
                      else shown[:2000]))
             return out
         core.bump(out["probes"], "returned_object")
+        rlog.append((e, "returned"))
         # ---- usable
         try:
             world.guarded(lambda: _use(e, res, lk, lecdh, msg))
@@ -290,6 +294,7 @@ def execute(prog):
                 "intact signature did not verify: %r" % (res,))
             return out
     out["digest"] = core.digest_of(log)
+    out["rdigest"] = core.digest_of(rlog)
     out["steps"] = out["ops"]       # deliveries
     return out
 
